@@ -53,6 +53,25 @@ fn gen_name_text(u: &mut Unstructured, origin: &[Vec<u8>], owner: bool) -> (Stri
             "defect:label-64"
         }
         3 => { t = format!("\\256.{t}"); "defect:escape" }
+        4 => {
+            // 64 octets, one of them written as an escape (the reader's
+            // slow path after an escape has its own limit check)
+            let l: String = std::iter::repeat('y').take(63).collect();
+            t = format!("\\y{l}.{t}");
+            "defect:label-64"
+        }
+        5 => {
+            // 64 plain octets in a label that follows an escaped label
+            let l: String = std::iter::repeat('y').take(64).collect();
+            t = format!("\\119.{l}.{t}");
+            "defect:label-64"
+        }
+        6 => {
+            // valid: exactly 63 octets with an escape inside / after an escaped label
+            let l: String = std::iter::repeat('y').take(62).collect();
+            t = if flag(u) { format!("\\y{l}.{t}") } else { format!("\\119.y{l}.{t}") };
+            "escaped-63"
+        }
         _ => "plain",
     };
     (t, what)
@@ -146,6 +165,10 @@ pub fn run_scan(data: &[u8], ctx: &mut Ctx) -> CaseResult {
             Err(_) => {
                 if eo.is_ok() && et.is_ok() {
                     ctx.class("scan:err-on-valid");
+                    // both names are presentation forms of valid names within
+                    // all limits: the text -> name direction of the round trip
+                    // demands that the scanner reads them
+                    vfail!("scan_name:rejected-valid-name", "zone {zone:?}: owner and target are valid names (owner {} octets, target {} octets) but the reader returned an error", eo.as_ref().unwrap().len(), et.as_ref().unwrap().len());
                 } else {
                     ctx.class("scan:rejected");
                 }
